@@ -3,6 +3,7 @@
 // direct-oracle verdicts (`orc <id> ok` / `orc <id> FAIL <why>`).
 mod c04;
 mod c06;
+mod cache;
 mod dedup;
 mod sess;
 mod shard;
@@ -43,6 +44,7 @@ fn main() {
             "c18" => shard::run_c18(&toks[1..]),
             "c18m" => shard::run_c18m(&toks[1..]),
             "dd" => dedup::run(&toks[1..]),
+            "cache" => cache::run(&toks[1..]),
             "sess" => sess::run(&toks[1..]),
             "c07" => xorb::run_c07(&toks[1..]),
             "c07prep" => xorb::prep_c07(&toks[1..]),
